@@ -34,8 +34,8 @@ ASSUMPTIONS = [
 
 
 def opts() -> mmgen.Opts:
-    return mmgen.Opts(max_classes=6, max_props=3, max_cps=3, invariants="schema", docs="none", p_diamond=0.7,
-                      guard_other=0.15, max_consts=4)
+    return mmgen.Opts(max_classes=6, max_props=3, max_cps=4, invariants="schema", docs="none", p_diamond=0.7,
+                      guard_other=0.15, max_consts=4, forward_bases=0.5, cp_chain=0.5, cp_weight=4)
 
 
 @st.composite
